@@ -33,3 +33,32 @@ package server
 //@   ensures [share-of-the-target-released-only-if-this-task-held-one] forall k string :: old(k in e.replicateEntityMap.data) && !old(cmHas(e.replicateEntityMap.data[k].taskQuitFuncs, taskID)) ==> atomicGet(old(e.replicateEntityMap.data[k]).refCnt) == old(atomicGet(e.replicateEntityMap.data[k].refCnt))
 //@   ensures [state-record-written-at-most-once-and-only-for-this-task] metaPuts == old(metaPuts) || (metaPuts == old(metaPuts) + 1 && as(lastMetaPut, "*meta.TaskInfo").State == meta.TaskStatePaused)
 //@   panics never
+
+// ---- C19: validation of create requests --------------------------------------------------------------
+//@ spec milvusEmpty(req *request.CreateRequest) bool = req.MilvusConnectParam.URI == "" && req.MilvusConnectParam.Host == "" && req.MilvusConnectParam.Port <= 0
+// validTargets, validLimits, validShape: written from the property statement (conflicting targets, host
+// without port, user without password, negative limits, none or more than one collection specification)
+//@ spec validTargets(req *request.CreateRequest) bool = (milvusEmpty(req) != (req.KafkaConnectParam.Address == "")) && (!milvusEmpty(req) ==> (req.MilvusConnectParam.URI != "" || (req.MilvusConnectParam.Host != "" && req.MilvusConnectParam.Port > 0)) && ((req.MilvusConnectParam.Username == "") == (req.MilvusConnectParam.Password == "")) && req.MilvusConnectParam.ConnectTimeout >= 0) && (req.KafkaConnectParam.Address != "" ==> req.KafkaConnectParam.Topic != "")
+//@ spec validLimits(req *request.CreateRequest) bool = req.BufferConfig.Period >= 0 && req.BufferConfig.Size >= 0
+//@ spec validShape(req *request.CreateRequest) bool = (len(req.CollectionInfos) == 1 && len(req.DBCollections) == 0) || (len(req.CollectionInfos) == 0 && len(req.DBCollections) == 1)
+
+//@ func (*MetaCDC).validCreateRequest
+//@   props C19
+//@   requires e != nil && e.config != nil && req != nil
+//@   ensures [accepted-requests-name-exactly-one-well-formed-target] err == nil ==> old(validTargets(req))
+//@   ensures [accepted-requests-have-non-negative-limits] err == nil ==> old(validLimits(req))
+//@   ensures [accepted-requests-have-exactly-one-collection-specification] err == nil ==> old(validShape(req))
+//@   ensures [foreign-rpc-channel-rejected] err == nil ==> old(req.RPCChannelInfo.Name) == "" || old(req.RPCChannelInfo.Name == e.config.SourceConfig.ReplicateChan)
+//@   panics never
+
+//@ func (*MetaCDC).checkCollectionInfos
+//@   props C19
+//@   requires e != nil && e.config != nil
+//@   ensures [exactly-one-named-collection] err == nil ==> len(infos) == 1 && old(infos[0].Name) != "" && len(old(infos[0].Name)) <= old(e.config.MaxNameLength)
+//@   ensures [wildcard-takes-no-positions] err == nil && old(infos[0].Name) == "*" ==> old(len(infos[0].Positions)) == 0
+//@   modifies nothing
+// `len(infos) > 1` inside the loop is dead after the `len(infos) != 1` check above it
+//@   unreachable return@5
+//@   loop 1 invariant preservedStruct(model.CollectionInfo) && preservedArrays(string) && (longNames == nil || freshRef2(longNames))
+//@   loop 1 invariant (rangeindex == 0 - 1 || rangeindex == 0) && len(infos) == 1 && (rangeindex == 0 - 1 ==> !emptyName && len(longNames) == 0 && preservedArrays(model.CollectionInfo) && preservedFields(CDCServerConfig.MaxNameLength) && preservedFields(MetaCDC.config)) && (rangeindex == 0 ==> emptyName == (old(infos[0].Name) == "") && (len(longNames) == 0) == (len(old(infos[0].Name)) <= old(e.config.MaxNameLength)) && (old(infos[0].Name) == "*" ==> old(len(infos[0].Positions)) == 0))
+//@   panics never
